@@ -531,7 +531,17 @@ def r6_one_step_decode(ctx):
     vals = [ty for ty in f.raw["locals"] if _re.search(r"serde_json::Value|serde_json::Map<", ty)]
     ctx.check(R, "no-dynamic-json-value", not vals, "locals of a dynamically typed JSON value in http_request_load_body: %s" % (sorted(set(vals))[:3] or "none"), f)
 
-RULES = [("C10.R6", r6_one_step_decode), ("C10.R1", r1_short_circuit), ("C10.R2", r2_tuples), ("C10.R3", r3_error_class), ("C10.R4", r4_panic_census), ("C10.R5", r5_content_type_gate)]
+
+def r7_numeric_range(ctx):
+    """Out-of-range numbers are refused because each deserialize_<T> parses the text as exactly T (no wider parse
+    followed by a narrowing cast): the primitive table of C09.R2, re-evaluated here because its violation is a C10
+    violation too (seeds C10-A, C09-A)."""
+    from . import c09
+    from .lib_c01 import Renamed
+    c09.r2_primitive_table(Renamed(ctx, "C10.R7", "an out-of-range or ill-typed scalar is a parse error of the declared type, never a silently narrowed value"))
+
+
+RULES = [("C10.R7", r7_numeric_range), ("C10.R6", r6_one_step_decode), ("C10.R1", r1_short_circuit), ("C10.R2", r2_tuples), ("C10.R3", r3_error_class), ("C10.R4", r4_panic_census), ("C10.R5", r5_content_type_gate)]
 
 _LOAD_BODY_HV = """            hv.to_str().map_err(|e| {
                 HttpError::for_bad_request(
